@@ -182,6 +182,9 @@ cfg("MC_schema_breaks0.cfg", {"MaxSteps": "= 0", "BreakSteps": "= 0", "EmitModel
 # R3 (several requests): small alphabet, so that most drawn documents define and spread fragments (same names F1 / F2, different bodies)
 cfg("MC_faults_simf.cfg", fault_consts(FieldAlpha="<- AlphaSimF", Aliases='= {""}', Conds='= {"T", "Query"}', DirOpts="<- NoDirs",
     MaxSel="= 7", MaxDepth="= 3", MaxFrags="= 2", MaxOps="= 1", MaxFaults="= 1"), FAULT_INV, spec="SpecF")
+# R3 (several requests): documents with type-conditioned fragments wider than their parent type beside lists of the interface
+cfg("MC_faults_simw.cfg", fault_consts(FieldAlpha="<- AlphaWiden", Aliases='= {""}', Conds='= {"P", "A"}', DirOpts="<- NoDirs",
+    MaxSel="= 4", MaxDepth="= 3", MaxFrags="= 1", MaxOps="= 1", MaxFaults="= 1"), FAULT_INV, spec="SpecF")
 # ---- R3 (schedules): large faulty requests drawn by TLC in simulation mode -----------------------------
 cfg("MC_faults_sim.cfg", fault_consts(FieldAlpha="<- AlphaAll", Aliases='= {"", "z"}', Conds='= {"", "T", "P", "A", "B", "C", "U"}', DirOpts="<- NoDirs",
     ArgOpts="<- ArgOptsStd", MaxSel="= 9", MaxDepth="= 4", MaxFrags="= 1", MaxOps="= 1", OpTypes='= {"query", "mutation"}', MaxFaults="= 1"), FAULT_INV, spec="SpecF")
